@@ -1,0 +1,33 @@
+//go:build verif
+
+package plush
+
+import "github.com/gobuffalo/plush/v5/ast"
+
+// VerifProgram returns the parsed program of a template (read-only accessor
+// for verification harnesses; only built with the "verif" tag).
+func (t *Template) VerifProgram() *ast.Program {
+	return t.program
+}
+
+// VerifCacheReset empties the global template cache.
+func VerifCacheReset() {
+	moot.Lock()
+	defer moot.Unlock()
+	cache = map[string]*Template{}
+}
+
+// VerifCacheLen reports the number of cached templates.
+func VerifCacheLen() int {
+	moot.Lock()
+	defer moot.Unlock()
+	return len(cache)
+}
+
+// VerifCacheGet returns the cached template for a key, if any.
+func VerifCacheGet(key string) (*Template, bool) {
+	moot.Lock()
+	defer moot.Unlock()
+	t, ok := cache[key]
+	return t, ok
+}
